@@ -18,7 +18,7 @@ from .common import VERIF, REPO, Undecided, make_scratch, drop_scratch, log, wri
 
 LOCK = os.path.join(VERIF, "contracts", "obligations.lock.json")
 FINDINGS = os.path.join(VERIF, "known_findings.json")
-EVID_DIR = os.path.join(VERIF, "evidence")
+EVID_DIR = os.environ.get("VERIF_EVIDENCE_DIR") or os.path.join(VERIF, "evidence")
 REPLAY_DIR = os.path.join(VERIF, "replay", "out")
 
 # level per property is decided from the obligation kinds actually run:
@@ -209,7 +209,8 @@ def verdict(prop, tier, seed, t0, results, kobs, vunits, meta, lock, findings, r
         extra = sorted(set(ids) - locked)
         log("UNDECIDED property=%s: obligations not in lock (run --relock after review): %s" % (prop, ", ".join(extra)))
         rc = 2
-    write_evidence(prop, tier, seed, t0, results, kobs, vunits, meta, known, violations)
+    if not partial:  # a --only run (developer loop) never replaces the evidence of a full run
+        write_evidence(prop, tier, seed, t0, results, kobs, vunits, meta, known, violations)
     if rc == 0:
         print("PASS property=%s tier=%s obligations=%d discharged=%d known_findings=%d wall=%.0fs" % (prop, tier, len(ids), len(discharged), len(known), time.time() - t0))
     return rc
